@@ -193,7 +193,13 @@ func init() {
 		Assumptions: []string{"node ids unique within the list", "depth >= 1"},
 		NCases:      func(tier string) int { return c15ExhaustiveN(tier) + c15RandomN(tier) },
 		Case:        c15Case,
-		Exhaustive:  func(tier string) bool { return true },
+		ExhaustiveSubspaces: func(tier string) []string {
+			out := []string{"all 512 digraphs with self-loops on 3 nodes x 8 root subsets x 5 starts x depths 1..5"}
+			if tier == "thorough" {
+				out = append(out, "all 65536 digraphs on 4 nodes x 16 root subsets x 6 starts x depths 1..5")
+			}
+			return out
+		},
 		CaseCPU:     60,
 	})
 }
